@@ -1721,4 +1721,39 @@ theorem readDirAll_exact (rs : List Rec) (hok : ∀ r ∈ rs, RecOk r) :
   rw [← hl, this]
   simp [entryOf, List.map_map, Function.comp_def]
 
+/-! ### file systems that do not fill in `d_type` -/
+
+theorem zip_map_left {α β : Type} (f : α → β) (l : List α) : ∀ p ∈ (l.map f).zip l, p.1 = f p.2 := by
+  induction l with
+  | nil => intro p hp; simp at hp
+  | cons a l ih =>
+    intro p hp
+    simp only [List.map_cons, List.zip_cons_cons, List.mem_cons] at hp
+    rcases hp with rfl | hp
+    · rfl
+    · exact ih p hp
+
+theorem fileType_unknown : fileType DT_UNKNOWN = .unknown := by decide
+
+/-- on a DT_UNKNOWN mount `Directory::remove_all` cannot remove anything: the first entry, `.`, is not
+`FileType::Directory`, goes to the plain `unlinkat` and that answers EISDIR; the directory is left as it was -/
+theorem removeAllN_unknown_fails (fuel : Nat) (es : List (Name × Node))
+    (hn : ∀ e ∈ es, e.1.length ≤ 255 ∧ ∀ b ∈ e.1, b ≠ 0) :
+    removeAllN false (fuel + 1) (.dir es) = (.dir es, .error (.os EISDIR)) := by
+  have hok : ∀ r ∈ dirRecsOn false es, RecOk r := by
+    intro r hr
+    simp only [dirRecsOn, Bool.false_eq_true, if_false, dirRecs, List.map_cons, List.map_map, List.mem_cons, List.mem_map] at hr
+    rcases hr with rfl | rfl | ⟨e, he, rfl⟩
+    · exact ⟨by decide, by decide⟩
+    · exact ⟨by decide, by decide⟩
+    · exact hn e he
+  have hr := readDirAll_exact (dirRecsOn false es) hok
+  unfold removeAllN
+  simp only [hr]
+  simp only [dirRecsOn, Bool.false_eq_true, if_false, dirRecs, List.map_cons]
+  unfold removeEntries
+  have h1 : ¬ fileType DT_UNKNOWN = FType.dir := by decide
+  have h2 : isDots [DOT] = true := by decide
+  simp only [h1, if_false, unlinkatN, h2, if_true, Bool.false_eq_true]
+
 end TinyVerif.Fs
